@@ -2,10 +2,11 @@
 from __future__ import annotations
 
 import ast
+from dataclasses import dataclass, field
 
 from ..core import Ctx
-from ..match import arg, call_name, calls, facts_at, local_defs, resolve, single_def
-from ..model import AnalysisError, FuncInfo, ancestors, chain, const_value, enclosing_stmt, norm, strip_cast, walk_no_nested
+from ..match import Fact, arg, call_name, calls, fact_of, facts_at, is_param, local_defs, names_in, resolve, single_def
+from ..model import AnalysisError, FuncInfo, ancestors, chain, clone, enclosing_stmt, norm, strip_cast, walk_no_nested
 
 LEVEL = "other"
 EXPLANATION = (
@@ -15,24 +16,483 @@ EXPLANATION = (
     "<-> originator decrypt BACKWARD; e2e layer innermost with dual seeder/downloader directions; encrypt iterates hops "
     "reversed, decrypt in order; missing keys raise); only create/created may be plaintext and plaintext cells of any "
     "other type are dropped before delivery/relay; every cell leaves through a successful crypto step; a cell that fails "
-    "authentication is dropped. Byte equality / ciphertext distinctness / tamper rejection rest on the AEAD (trusted)."
+    "authentication is dropped; a circuit id selects one key set only (an exit socket is never installed under the id of an "
+    "own circuit). Byte equality / ciphertext distinctness / tamper rejection rest on the AEAD (trusted)."
 )
 
 CR = "ipv8/messaging/anonymization/crypto.py"
 TC = "ipv8/messaging/anonymization/community.py"
 PL = "ipv8/messaging/anonymization/payload.py"
 
+# methods of the crypto endpoint that the rules below analyse on their own; any other method of the class that one of
+# them calls on `self` is a helper: its body is analysed as part of the caller (parameters bound to the arguments)
+REVIEWED = {"on_packet", "send_cell", "process_cell", "relay_cell", "outgoing_crypto", "incoming_crypto", "encrypt_cell",
+            "decrypt_cell", "setup_tunnels", "__init__"}
+CRYPTO_OPS = ("self.encrypt_cell", "self.decrypt_cell")
+ROLE_FUNCS = ("outgoing_crypto", "incoming_crypto", "relay_cell")
 
-def _role(facts) -> str:
-    pos = sorted({chain(f.left) for f in facts if f.op == "truthy" and f.pos and chain(f.left)})
-    neg = sorted({chain(f.left) for f in facts if f.op == "truthy" and not f.pos and chain(f.left)})
-    eqs = sorted({f"{norm(f.left)}=={norm(f.right)}" for f in facts if f.op == "eq" and f.pos})
-    return "+".join(pos) + ("|not:" + ",".join(neg) if neg else "") + ("|" + ",".join(eqs) if eqs else "")
+
+# ------------------------------------------------------------------------------------ local aliases / helper calls
+_IMPURE = (ast.Subscript, ast.Await, ast.Yield, ast.YieldFrom, ast.NamedExpr, ast.Lambda, ast.ListComp, ast.SetComp, ast.DictComp,
+           ast.GeneratorExp, ast.Starred)
 
 
-def _dir_text(fi: FuncInfo, e: ast.AST) -> str:
-    e = resolve(fi, e)
-    return norm(e)
+def _callers(ctx: Ctx, name: str):
+    """repo.callers_of_name(name) from one indexed pass over the repository (same triples: module, FuncInfo | None, Call)."""
+    idx = getattr(ctx, "_c04_call_index", None)
+    if idx is None:
+        idx = {}
+        for m in ctx.repo.modules.values():
+            for n in ast.walk(m.tree):
+                if isinstance(n, ast.Call):
+                    f = n.func
+                    nm = f.attr if isinstance(f, ast.Attribute) else f.id if isinstance(f, ast.Name) else None
+                    if nm is not None:
+                        idx.setdefault(nm, []).append((m, n))
+        ctx._c04_call_index = idx  # type: ignore[attr-defined]
+    return [(m, ctx.repo.function_of(n), n) for m, n in idx.get(name, [])]
+
+
+def _is_pure_alias(v: ast.AST) -> bool:
+    """Attribute chains / constants / conditional expressions over them / a Hop(...) record: reading it twice gives the same value."""
+    for n in ast.walk(v):
+        if isinstance(n, ast.Call) and chain(n.func) != "Hop":
+            return False
+        if isinstance(n, _IMPURE):
+            return False
+    return True
+
+
+def _bindings(fi: FuncInfo, name: str) -> int:
+    return len(local_defs(fi, name)) + (1 if is_param(fi, name) else 0)
+
+
+def _alias_def(ctx: Ctx, fi: FuncInfo, name: str, at: ast.AST | None) -> ast.AST | None:
+    """Value of local `name` when it is a pure alias whose only definition dominates `at` and whose operands are bound once."""
+    d = single_def(fi, name)
+    if d is None or d[1] is not None:
+        return None
+    v = strip_cast(d[0])
+    if not _is_pure_alias(v):
+        return None
+    if any(_bindings(fi, nm) > 1 for nm in names_in(v)):
+        return None
+    if at is not None:
+        cfg = ctx.cfg(fi)
+        dn = cfg.nodes_for(local_defs(fi, name)[0][0])
+        un = cfg.nodes_for(at)
+        if un and not all(u in dn or cfg.must_complete(u, dn) for u in un):
+            return None
+    return v
+
+
+def _expand(ctx: Ctx, fi: FuncInfo, e: ast.AST | None, env: dict | None = None, at: ast.AST | None = None, depth: int = 4):
+    """Copy of expression e (a node of fi) in the caller's terms: helper parameters replaced by the bound arguments (env) and
+    pure local aliases (`keys = hop.keys`, `path = circuit.hops`) replaced by their definition."""
+    if e is None:
+        return None
+    at = e if at is None else at
+
+    class _T(ast.NodeTransformer):
+        def visit_Name(self, n: ast.Name):  # noqa: N802
+            if not isinstance(n.ctx, ast.Load):
+                return n
+            if env and n.id in env:
+                return clone(env[n.id])
+            if depth > 0:
+                v = _alias_def(ctx, fi, n.id, at)
+                if v is not None:
+                    return _expand(ctx, fi, v, env, at=v, depth=depth - 1)
+            return n
+
+    return _T().visit(clone(strip_cast(e)))
+
+
+def _xchain(ctx: Ctx, fi: FuncInfo, e: ast.AST | None, env: dict | None = None, at: ast.AST | None = None) -> str | None:
+    return None if e is None else chain(_expand(ctx, fi, e, env, at))
+
+
+def _xfacts(ctx: Ctx, fi: FuncInfo, site, env: dict | None = None) -> list[Fact]:
+    """Dominating facts at site, operands expanded (aliases / helper parameters)."""
+    out = []
+    for f in facts_at(ctx.cfg(fi), site):
+        out.append(Fact(f.op, _expand(ctx, fi, f.left, env), _expand(ctx, fi, f.right, env) if f.right is not None else None, f.pos, f.atom))
+    return out
+
+
+def _helper(ctx: Ctx, fi: FuncInfo, call: ast.Call) -> FuncInfo | None:
+    """Target of `self.<m>(...)` when <m> is a plain method of the same class that no rule analyses on its own."""
+    f = call.func
+    if not (isinstance(f, ast.Attribute) and isinstance(f.value, ast.Name) and f.value.id == "self" and fi.cls is not None):
+        return None
+    if f.attr in REVIEWED:
+        return None
+    t = fi.cls.lookup(f.attr)
+    if not isinstance(t, FuncInfo) or t.node.decorator_list:
+        return None
+    return t
+
+
+def _bind(ctx: Ctx, fi: FuncInfo, call: ast.Call, target: FuncInfo, env: dict | None) -> dict:
+    a = target.node.args
+    if a.vararg or a.kwarg or any(isinstance(x, ast.Starred) for x in call.args) or any(k.arg is None for k in call.keywords):
+        raise AnalysisError(f"undecided: helper {target.qualname} is called with packed arguments")
+    params = [x.arg for x in a.posonlyargs + a.args][1:]
+    out = {}
+    for p, v in zip(params, call.args):
+        out[p] = _expand(ctx, fi, v, env)
+    for k in call.keywords:
+        out[k.arg] = _expand(ctx, fi, k.value, env)
+    return out
+
+
+def _cond_call(ctx: Ctx, fi: FuncInfo, n) -> ast.Call | None:
+    """The call whose result a cond node tests: the atom itself, or a local bound once to the call."""
+    a = n.ast
+    if isinstance(a, ast.Name) and _bindings(fi, a.id) == 1:
+        a = resolve(fi, a)
+    return a if isinstance(a, ast.Call) else None
+
+
+@dataclass
+class _Site:
+    fi: FuncInfo                      # function that contains the call textually
+    call: ast.Call
+    env: dict | None                  # helper parameter -> argument (in the role function's terms)
+    facts: list                       # dominating facts, outer call sites first
+    via: list = field(default_factory=list)      # [(function, helper call)] from the role function down to fi
+
+
+def _crypto_sites(ctx: Ctx, fi: FuncInfo, env: dict | None = None, outer=(), via=(), depth: int = 3) -> list[_Site]:
+    """encrypt_cell/decrypt_cell call sites of a role function including those in the helpers it calls."""
+    out = []
+    for c in calls(fi):
+        if chain(c.func) in CRYPTO_OPS:
+            out.append(_Site(fi, c, env, list(outer) + _xfacts(ctx, fi, c, env), list(via)))
+            continue
+        t = _helper(ctx, fi, c)
+        if t is not None and depth > 0 and all(t is not g for g, _ in via) and t is not fi:
+            out.extend(_crypto_sites(ctx, t, _bind(ctx, fi, c, t, env), list(outer) + _xfacts(ctx, fi, c, env),
+                                     [*via, (fi, c)], depth - 1))
+    return out
+
+
+def _unit(ctx: Ctx, fi: FuncInfo, depth: int = 3) -> list[FuncInfo]:
+    """fi and the helpers it (transitively) calls."""
+    out = [fi]
+    if depth > 0:
+        for c in calls(fi):
+            t = _helper(ctx, fi, c)
+            if t is not None and t not in out:
+                out.extend(g for g in _unit(ctx, t, depth - 1) if g not in out)
+    return out
+
+
+# ------------------------------------------------------------------------------------ values decided by the path
+def _reaching_defs(ctx: Ctx, fi: FuncInfo, name: str, site_nodes):
+    """[(stmt, value)] definitions of local `name` that can be the latest one when a site node runs."""
+    cfg = ctx.cfg(fi)
+    defs = local_defs(fi, name)
+    nodes = {id(st): cfg.nodes_for(st) for st, _, _ in defs}
+    out = []
+    for st, v, idx in defs:
+        others = [n for st2, _, _ in defs if st2 is not st for n in nodes[id(st2)]]
+        mine = nodes[id(st)]
+        starts = [w for n in mine for w, lab in n.succ if lab != "exc"]
+        r = cfg.reach(starts, cut_nodes=others)
+        if any(s in r for s in site_nodes):
+            out.append((st, v if idx is None else None))
+    return out
+
+
+def _path_facts(ctx: Ctx, fi: FuncInfo, def_stmt, other_defs, site_nodes):
+    """(atom, polarity) that hold on every path entry -> def_stmt -> site that passes no other definition."""
+    cfg = ctx.cfg(fi)
+    dn = cfg.nodes_for(def_stmt)
+    out = []
+    for n in dn:
+        out.extend(cfg.facts_at(n))
+    others = [n for st in other_defs for n in cfg.nodes_for(st)]
+    starts = [w for n in dn for w, lab in n.succ if lab != "exc"]
+    base = cfg.reach(starts, cut_nodes=others)
+    if not any(s in base for s in site_nodes):
+        return out
+    for c in cfg.nodes:
+        if c.kind != "cond" or c not in base:
+            continue
+        for pol in (True, False):
+            r = cfg.reach(starts, cut_nodes=others, cut_edge=lambda u, v, lab, c=c, pol=pol: u is c and lab is pol)
+            if not any(s in r for s in site_nodes):
+                out.append((c.ast, pol))
+    return out
+
+
+def _conditional_value(ctx: Ctx, fi: FuncInfo, name: str, at: ast.AST):
+    """`if T: x = A else: x = B` (any equivalent control flow): (T-atom, polarity, A, B) = x is A iff atom has polarity, else B."""
+    cfg = ctx.cfg(fi)
+    site_nodes = cfg.nodes_for(at)
+    defs = local_defs(fi, name)
+    if not site_nodes or is_param(fi, name) or any(v is None or idx is not None for _, v, idx in defs):
+        return None
+    all_nodes = [n for st, _, _ in defs for n in cfg.nodes_for(st)]
+    if not all(cfg.must_complete(s, all_nodes) for s in site_nodes):
+        return None
+    rd = _reaching_defs(ctx, fi, name, site_nodes)
+    if len(rd) != 2:
+        return None
+    (s1, v1), (s2, v2) = rd
+    f1 = _path_facts(ctx, fi, s1, [s2], site_nodes)
+    f2 = _path_facts(ctx, fi, s2, [s1], site_nodes)
+    for a, p in f1:
+        if isinstance(a, (ast.For, ast.AsyncFor, ast.While)):
+            continue
+        if any(a2 is a and p2 is (not p) for a2, p2 in f2):
+            cn = [n for n in cfg.by_ast.get(id(a), []) if n.kind == "cond"]
+            # the deciding test runs once per call (not inside a loop)
+            if any(n in cfg.reach([w for w, _ in n.succ]) for n in cn):
+                return None
+            return a, p, v1, v2
+    return None
+
+
+def _is_const_name(text: str) -> bool:
+    return text.replace("_", "").isalnum() and text.upper() == text and not text[0].isdigit()
+
+
+def _eq_sides(ctx: Ctx, fi: FuncInfo, f: Fact, env: dict | None):
+    l, r = norm(_expand(ctx, fi, f.left, env)), norm(_expand(ctx, fi, f.right, env))
+    return (r, l) if _is_const_name(l) and not _is_const_name(r) else (l, r)
+
+
+def _dir_canon(ctx: Ctx, fi: FuncInfo, e: ast.AST | None, env: dict | None, at: ast.AST, depth: int = 4) -> str:
+    """Canonical text of a direction argument: aliases followed, a value chosen by if/else written as `A if L == R else B`."""
+    if e is None:
+        return "<none>"
+    e = strip_cast(e)
+    if isinstance(e, ast.Name) and not (env and e.id in env) and not is_param(fi, e.id) and depth > 0:
+        defs = local_defs(fi, e.id)
+        if len(defs) == 1:
+            v = _alias_def(ctx, fi, e.id, at)
+            if v is not None:
+                return _dir_canon(ctx, fi, v, env, v, depth - 1)
+        elif len(defs) > 1:
+            cv = _conditional_value(ctx, fi, e.id, at)
+            if cv is not None:
+                a, p, v1, v2 = cv
+                return _ifexp_text(ctx, fi, a, p, v1, v2, env, depth - 1)
+    if isinstance(e, ast.IfExp):
+        return _ifexp_text(ctx, fi, e.test, True, e.body, e.orelse, env, depth - 1)
+    return norm(_expand(ctx, fi, e, env, at=at))
+
+
+def _ifexp_text(ctx: Ctx, fi: FuncInfo, test: ast.AST, pol: bool, a: ast.AST, b: ast.AST, env, depth: int) -> str:
+    while isinstance(test, ast.UnaryOp) and isinstance(test.op, ast.Not):
+        test, pol = test.operand, not pol
+    f = fact_of(test, pol)
+    ta, tb = _dir_canon(ctx, fi, a, env, a, depth), _dir_canon(ctx, fi, b, env, b, depth)
+    if not f.pos:
+        ta, tb = tb, ta
+    if f.op == "eq":
+        l, r = _eq_sides(ctx, fi, f, env)
+        return f"{ta} if {l} == {r} else {tb}"
+    if f.op == "truthy":
+        return f"{ta} if {norm(_expand(ctx, fi, f.left, env))} else {tb}"
+    f.pos = True
+    return f"{ta} if {f} else {tb}"
+
+
+# ------------------------------------------------------------------------------------ every path passes ... (following helpers)
+class _MustPass:
+    """
+    'Every path from entry to a target takes a good edge / completes a good node.'  The good construct may live in a helper of
+    the same class whose result guards the target (`if not self._helper(cell): return`): the helper call then counts as good on
+    the out-edge(s) for which every matching `return` of the helper is itself covered.
+    """
+
+    def __init__(self, ctx: Ctx, good_edge=None, good_node=None, infeasible=None, subject=("cell",)) -> None:
+        self.ctx = ctx
+        self.subject = set(subject)         # a helper decides something only when it is handed (an expression over) one of these names
+        self.good_edge = good_edge          # (fi, env, cfg, cond node, label) -> bool
+        self.good_node = good_node          # (fi, env, cfg, node) -> bool
+        self.infeasible = infeasible        # (fi, env, cfg, cond node, label) -> bool : edge cannot be taken
+        self.undecided: list[AnalysisError] = []
+        self._memo: dict = {}
+
+    def _guar(self, fi: FuncInfo, call: ast.Call, t: FuncInfo, env, pol, depth: int) -> bool:
+        """guarantees() of helper t for this call; a helper the analysis cannot follow gives no guarantee (remembered as undecided)."""
+        try:
+            given = [_expand(self.ctx, fi, a, env) for a in [*call.args, *[k.value for k in call.keywords]]]
+            if not any(isinstance(x, ast.Name) and x.id in self.subject for v in given for x in ast.walk(v)):
+                return False                 # a helper that is not given the subject decides nothing about it
+            henv = _bind(self.ctx, fi, call, t, env)
+            key = (id(t.node), pol, tuple(sorted((k, norm(v)) for k, v in henv.items())))
+            if key not in self._memo:
+                self._memo[key] = self.guarantees(t, henv, pol, depth)
+            return self._memo[key]
+        except AnalysisError as ex:
+            self.undecided.append(ex)
+            return False
+
+    def _cuts(self, fi: FuncInfo, env, depth: int, skip=()):
+        ctx = self.ctx
+        cfg = ctx.cfg(fi)
+        cut_normal, cut_edges = set(), set()
+        for n in cfg.nodes:
+            if n in skip:
+                continue
+            if n.kind in ("stmt", "cond") and self.good_node is not None and self.good_node(fi, env, cfg, n):
+                cut_normal.add(n)
+            if n.kind == "cond":
+                for lab in (True, False):
+                    if (self.good_edge is not None and self.good_edge(fi, env, cfg, n, lab)) or \
+                            (self.infeasible is not None and self.infeasible(fi, env, cfg, n, lab)):
+                        cut_edges.add((n, lab))
+                c = _cond_call(ctx, fi, n)
+                t = _helper(ctx, fi, c) if c is not None else None
+                if t is not None and depth > 0:
+                    for lab in (True, False):
+                        if self._guar(fi, c, t, env, lab, depth - 1):
+                            cut_edges.add((n, lab))
+        if depth > 0:
+            for c in calls(fi):
+                t = _helper(ctx, fi, c)
+                if t is None:
+                    continue
+                full = None
+                for n in cfg.nodes_for(c):
+                    if (n.kind == "cond" and n.ast is c) or n in skip:
+                        continue
+                    if full is None:
+                        full = self._guar(fi, c, t, env, None, depth - 1)
+                    if full:
+                        cut_normal.add(n)
+        return cfg, cut_normal, cut_edges
+
+    def reach(self, fi: FuncInfo, env=None, depth: int = 2, skip=()):
+        cfg, cut_normal, cut_edges = self._cuts(fi, env, depth, skip)
+
+        def is_cut(u, v, lab) -> bool:
+            return (u, lab) in cut_edges or (u in cut_normal and lab != "exc")
+        return cfg, _flag_reach(self.ctx, fi, None, is_cut), is_cut
+
+    def holds_at(self, fi: FuncInfo, site: ast.AST) -> bool:
+        self.undecided = []
+        nodes = self.ctx.cfg(fi).nodes_for(site)
+        cfg, seen, _ = self.reach(fi, skip=nodes)
+        ok = bool(nodes) and not any(n in seen for n in nodes)
+        if not ok and self.undecided:
+            raise self.undecided[0]
+        return ok
+
+    def guarantees(self, fi: FuncInfo, env, pol, depth: int) -> bool:
+        """Every normal exit of helper fi whose result may have truthiness pol (None: any) is covered."""
+        if any(isinstance(t, ast.Try) and t.finalbody for t in walk_no_nested(fi.node)):
+            raise AnalysisError(f"undecided: helper {fi.qualname} returns through a finally block")
+        cfg, seen, is_cut = self.reach(fi, env, depth)
+        for n in seen:
+            for v, lab in n.succ:
+                if v is cfg.exit and lab != "exc" and not is_cut(n, v, lab):
+                    if pol is None or pol in _exit_truth(self.ctx, fi, n, seen):
+                        return False
+        return True
+
+
+def _const_truth(v: ast.AST | None):
+    if v is None:
+        return {False}
+    if isinstance(v, ast.Constant):
+        return {bool(v.value)}
+    return {True, False}
+
+
+_UNSET = object()
+
+
+def _flags(fi: FuncInfo) -> list[str]:
+    """Locals that only ever hold constants (`ok = True ... ok = False`): their tests can be decided along a path."""
+    names = []
+    for n in walk_no_nested(fi.node):
+        if isinstance(n, ast.Assign):
+            for t in n.targets:
+                if isinstance(t, ast.Name) and t.id not in names:
+                    names.append(t.id)
+    out = []
+    for nm in names:
+        d = local_defs(fi, nm)
+        if not is_param(fi, nm) and d and all(idx is None and isinstance(v, ast.Constant) and isinstance(st, ast.Assign) for st, v, idx in d):
+            out.append(nm)
+    return out
+
+
+def _flag_reach(ctx: Ctx, fi: FuncInfo, starts=None, cut_edge=None) -> dict:
+    """Forward reachability that remembers the current value of every constant flag and does not take the branch of `if flag` /
+    `if not flag` that contradicts it.  Returns {node: set of flag-value tuples}; `in` works as for a set of nodes.
+    starts: nodes, or (node, flag-value tuple) pairs to continue from a known state."""
+    cfg = ctx.cfg(fi)
+    flags = _flags(fi)
+    defnode = {}
+    for i, nm in enumerate(flags):
+        for st, v, _ in local_defs(fi, nm):
+            for n in cfg.nodes_for(st):
+                defnode[n] = (i, v.value)
+    init = tuple(_UNSET for _ in flags)
+    todo = [x if isinstance(x, tuple) else (x, init) for x in ([cfg.entry] if starts is None else starts)]
+    seen: dict = {}
+    while todo:
+        u, st = todo.pop()
+        if st in seen.setdefault(u, set()):
+            continue
+        seen[u].add(st)
+        for v, lab in u.succ:
+            if cut_edge is not None and cut_edge(u, v, lab):
+                continue
+            st2 = st
+            if u in defnode and lab != "exc":
+                i, val = defnode[u]
+                st2 = st[:i] + (val,) + st[i + 1:]
+            if u.kind == "cond" and isinstance(u.ast, ast.Name) and u.ast.id in flags and lab in (True, False):
+                val = st[flags.index(u.ast.id)]
+                if val is not _UNSET and bool(val) is not lab:
+                    continue
+            todo.append((v, st2))
+    return seen
+
+
+def _exit_truth(ctx: Ctx, fi: FuncInfo, n, seen: dict | None = None) -> set:
+    """Possible truthiness of the result when the function leaves through node n (seen: result of _flag_reach)."""
+    if not (n.kind == "stmt" and isinstance(n.ast, ast.Return)):
+        return {False}                       # falls off the end: None
+    v = strip_cast(n.ast.value) if n.ast.value is not None else None
+    if isinstance(v, ast.Name) and seen is not None and v.id in _flags(fi):
+        i = _flags(fi).index(v.id)
+        out = set()
+        for st in seen.get(n, ()):
+            out |= {True, False} if st[i] is _UNSET else {bool(st[i])}
+        return out
+    return _const_truth(v)
+
+
+def _is_crypto_node(ctx: Ctx, fi: FuncInfo, env, cfg, n) -> bool:
+    for c in calls(fi, CRYPTO_OPS):
+        if n in cfg.nodes_for(c) and norm(_expand(ctx, fi, arg(c, 0), env)) == "cell":
+            return True
+    return False
+
+
+def _not_plaintext_edge(ctx: Ctx, fi: FuncInfo, env, n, lab) -> bool:
+    f = fact_of(n.ast, lab)
+    return f.op == "truthy" and not f.pos and _xchain(ctx, fi, f.left, env) == "cell.plaintext"
+
+
+def _whitelisted_edge(ctx: Ctx, fi: FuncInfo, env, n, lab) -> bool:
+    """The edge establishes `cell.message[0] in NO_CRYPTO_PACKETS` (type byte read once into a local accepted)."""
+    f = fact_of(n.ast, lab)
+    if not (f.op == "in" and f.pos):
+        return False
+    left = f.left
+    if isinstance(left, ast.Name) and _bindings(fi, left.id) == 1:
+        left = resolve(fi, left)
+    return norm(_expand(ctx, fi, left, env)) == "cell.message[0]" and _xchain(ctx, fi, f.right, env) == "NO_CRYPTO_PACKETS"
 
 
 EXPECTED = {
@@ -59,28 +519,71 @@ EXPECTED = {
 }
 
 
+# values that are either None or an object without __bool__/__len__ (results of table .get(), the e2e key record): for these
+# `x is not None` and `x` are the same test; NOT for the boolean rendezvous flag
+OBJECT_OR_NONE = {"circuit", "exit_socket", "relay", "circuit.hs_session_keys"}
+
+
+def _role_sets(facts):
+    """(+roles, -roles, equalities) of expanded facts; `x is not None` counts as x present (table objects are never falsy)."""
+    pos, neg, eq = set(), set(), set()
+    for f in facts:
+        l = chain(f.left)
+        if f.op == "truthy" and l:
+            (pos if f.pos else neg).add(l)
+        elif f.op == "is" and l in OBJECT_OR_NONE and isinstance(f.right, ast.Constant) and f.right.value is None:
+            (neg if f.pos else pos).add(l)
+        elif f.op == "eq" and f.pos:
+            a, b = norm(f.left), norm(f.right)
+            eq.add((b, a) if _is_const_name(a) and not _is_const_name(b) else (a, b))
+    return pos, neg, eq
+
+
+def _rep_nodes(ctx: Ctx, s: _Site, k: int):
+    """CFG nodes that stand for site s in the k-th function of its call chain (the helper call leading to it, or the site itself)."""
+    if len(s.via) > k:
+        g, c = s.via[k]
+    else:
+        g, c = s.fi, s.call
+    return g, ctx.cfg(g).nodes_for(c)
+
+
+def _after(cfg, first_nodes, then_nodes) -> bool:
+    """then_nodes run only after first_nodes completed normally, never the other way round."""
+    r1 = cfg.reach([v for e in first_nodes for v, lab in e.succ if lab != "exc"])
+    r2 = cfg.reach([v for h in then_nodes for v, lab in h.succ if lab != "exc"])
+    return bool(first_nodes) and bool(then_nodes) and all(h in r1 for h in then_nodes) and not any(e in r2 for e in first_nodes)
+
+
 def rule_duality(ctx: Ctx) -> None:
     repo = ctx.repo
+    covered = set()
     for fname, table in EXPECTED.items():
         fi = repo.method("PythonCryptoEndpoint", fname, CR)
         cfg = ctx.cfg(fi)
+        unit = _unit(ctx, fi)
+        covered.update(g.node for g in unit)
+        for g in unit[1:]:
+            outside = sorted({(c_fi.qualname if c_fi is not None else m.relpath) for m, c_fi, c in _callers(ctx, g.name)
+                              if c_fi is None or c_fi not in unit})
+            ctx.check(not outside, "direction-duality", g, g.node, f"{fname}: helper {g.name} is called from {fname} only",
+                      f"{g.qualname} performs crypto steps of {fname} but is also called from {outside}: these steps run under a role "
+                      "the protocol table does not cover")
         found = {}
-        for c in calls(fi, ["self.encrypt_cell", "self.decrypt_cell"]):
+        for s in _crypto_sites(ctx, fi):
+            c = s.call
             op = call_name(c)
-            d = _dir_text(fi, arg(c, 1))
-            hops = ", ".join(norm(a) for a in c.args[2:])
-            facts = facts_at(cfg, c)
-            pos = {chain(f.left) for f in facts if f.op == "truthy" and f.pos and chain(f.left)}
-            neg = {chain(f.left) for f in facts if f.op == "truthy" and not f.pos and chain(f.left)}
-            eq = {(norm(f.left), norm(f.right)) for f in facts if f.op == "eq" and f.pos}
+            d = _dir_canon(ctx, s.fi, arg(c, 1), s.env, c)
+            hops = ", ".join(norm(_expand(ctx, s.fi, a, s.env, at=c)) for a in c.args[2:])
+            pos, neg, eq = _role_sets(s.facts)
             key = (op, d, hops)
-            found[key] = c
+            found.setdefault(key, s)
             exp = table.get(key)
-            ok = exp is not None and exp[0] <= pos and exp[1] <= neg and norm(arg(c, 0)) == "cell"
+            ok = exp is not None and exp[0] <= pos and exp[1] <= neg and norm(_expand(ctx, s.fi, arg(c, 0), s.env, at=c)) == "cell"
             if fname == "relay_cell" and d == "next_relay.direction" and ok:
                 want = "FORWARD" if op == "decrypt_cell" else "BACKWARD"
-                ok = ("direction", want) in eq or ("next_relay.direction", want) in eq
-            ctx.check(ok, "direction-duality", fi, c, f"{fname}: {op}(dir={d}, hops={hops}) under role +{sorted(pos)} -{sorted(neg)}",
+                ok = ("next_relay.direction", want) in eq
+            ctx.check(ok, "direction-duality", s.fi, c, f"{fname}: {op}(dir={d}, hops={hops}) under role +{sorted(pos)} -{sorted(neg)}",
                       f"{fname}: crypto step {op}(direction={d}, hops={hops}) under role +{sorted(pos)} -{sorted(neg)} is not a row of the "
                       "onion protocol table (wrong operation, direction, key set or role)")
         for key in table:
@@ -88,24 +591,33 @@ def rule_duality(ctx: Ctx) -> None:
                       f"{fname}: the protocol step {key} is missing: a layer is no longer added/removed for that role")
         # ordering of the e2e layer relative to the hop layers
         if fname in ("outgoing_crypto", "incoming_crypto"):
-            e2e = [c for k, c in found.items() if k[2].startswith("Hop(")]
-            hopl = [c for k, c in found.items() if k[2] == "*circuit.hops"]
+            e2e = [x for k, x in found.items() if k[2].startswith("Hop(")]
+            hopl = [x for k, x in found.items() if k[2] == "*circuit.hops"]
             if e2e and hopl:
-                n_e2e = cfg.nodes_for(e2e[0])
-                n_hop = cfg.nodes_for(hopl[0])
+                k = 0
+                while k < len(e2e[0].via) and k < len(hopl[0].via) and e2e[0].via[k][1] is hopl[0].via[k][1]:
+                    k += 1
+                g, n_e2e = _rep_nodes(ctx, e2e[0], k)
+                g2, n_hop = _rep_nodes(ctx, hopl[0], k)
+                gcfg = ctx.cfg(g)
                 if fname == "outgoing_crypto":
-                    ok = all(cfg.must_complete(h, n_e2e) or True for h in n_hop) and \
-                        all(h in cfg.reach([v for e in n_e2e for v, lab in e.succ if lab != "exc"]) for h in n_hop) and \
-                        not any(e in cfg.reach([v for h in n_hop for v, lab in h.succ if lab != "exc"]) for e in n_e2e)
+                    ok = g is g2 and _after(gcfg, n_e2e, n_hop)
                     what = "sending: e2e layer applied before (inside) the hop layers"
                 else:
-                    ok = all(e in cfg.reach([v for h in n_hop for v, lab in h.succ if lab != "exc"]) for e in n_e2e) and \
-                        not any(h in cfg.reach([v for e in n_e2e for v, lab in e.succ if lab != "exc"]) for h in n_hop)
+                    ok = g is g2 and _after(gcfg, n_hop, n_e2e)
                     what = "receiving: hop layers removed before the e2e layer"
-                ctx.check(ok, "direction-duality", fi, e2e[0], what, f"{fname}: order of the end-to-end layer and the hop layers is wrong ({what})")
+                ctx.check(ok, "direction-duality", e2e[0].fi, e2e[0].call, what,
+                          f"{fname}: order of the end-to-end layer and the hop layers is wrong ({what})")
+    # every encrypt_cell / decrypt_cell call of the repository is one of the table-checked sites
+    for op in ("encrypt_cell", "decrypt_cell"):
+        for m, c_fi, c in _callers(ctx, op):
+            ctx.check(c_fi is not None and c_fi.node in covered, "direction-duality", c_fi or m.relpath, c,
+                      f"{op} called inside outgoing_crypto / incoming_crypto / relay_cell (or a helper of theirs)",
+                      f"{op} is called outside outgoing_crypto / incoming_crypto / relay_cell: a layer is added or removed at a place "
+                      "the protocol table does not describe")
     # direction values of relay routes are FORWARD/BACKWARD constants at every construction site
     n = 0
-    for m, fi, c in repo.callers_of_name("RelayRoute"):
+    for m, fi, c in _callers(ctx, "RelayRoute"):
         if fi is None:
             continue
         n += 1
@@ -145,15 +657,21 @@ def rule_duality(ctx: Ctx) -> None:
                   f"{name} must iterate the hops {'last-to-first (first hop outermost)' if order == 'reversed' else 'first-to-last'}")
         prims = [c for c in calls(fi) if call_name(c) == prim]
         ctx.anchor(prims, f"{prim} in {name}")
+        loop_vars = names_in(lp.target)
         for c in prims:
             st = enclosing_stmt(c)
+            recv = _expand(ctx, fi, c.func.value, at=c) if isinstance(c.func, ast.Attribute) else None
+            rc_ = chain(recv) or ""
+            # the receiver is <loop variable>.keys (read directly or once into a local)
             ok = isinstance(st, ast.Assign) and chain(st.targets[0]) == "cell.message" and norm(arg(c, 0)) == "cell.message" \
-                and norm(arg(c, 1)) == fi.params()[2] and (chain(c.func) or "").endswith(".keys." + prim)
+                and norm(arg(c, 1)) == fi.params()[2] and rc_.endswith(".keys") and rc_.count(".") == 1 and rc_.split(".")[0] in loop_vars \
+                and ancestors_include(c, lp)
             ctx.check(ok, "direction-duality", fi, st, f"{name}: cell.message = hop.keys.{prim}(cell.message, direction)",
                       f"{name} does not replace the message by the {prim} of the message under the given direction")
-            facts = facts_at(cfg, c)
-            has_keys = any((f.op == "truthy" and f.pos and (chain(f.left) or "").endswith(".keys")) or
-                           (f.op == "is" and not f.pos and (chain(f.left) or "").endswith(".keys")) for f in facts)
+            facts = _xfacts(ctx, fi, c)
+            has_keys = any(chain(f.left) == rc_ and ((f.op == "truthy" and f.pos) or
+                                                     (f.op == "is" and not f.pos and isinstance(f.right, ast.Constant) and f.right.value is None))
+                           for f in facts)
             ctx.check(has_keys, "crypto-before-send", fi, c, f"{name}: a hop without keys raises instead of skipping the layer",
                       f"{name} can skip a layer silently when a hop has no keys", [str(f) for f in facts])
         # the "no keys" branch must raise (not continue / return)
@@ -161,12 +679,14 @@ def rule_duality(ctx: Ctx) -> None:
             if n.kind != "cond":
                 continue
             a = n.ast
+            f = fact_of(a, True)
+            if not (_xchain(ctx, fi, f.left) or "").endswith(".keys"):
+                continue
             nokeys_pol = None
-            if (chain(a) or "").endswith(".keys"):
-                nokeys_pol = False
-            elif isinstance(a, ast.Compare) and len(a.ops) == 1 and (chain(a.left) or "").endswith(".keys") \
-                    and isinstance(a.comparators[0], ast.Constant) and a.comparators[0].value is None:
-                nokeys_pol = isinstance(a.ops[0], ast.Is)
+            if f.op == "truthy":
+                nokeys_pol = not f.pos
+            elif f.op == "is" and isinstance(f.right, ast.Constant) and f.right.value is None:
+                nokeys_pol = f.pos
             if nokeys_pol is None:
                 continue
             starts = [v for v, lab in n.succ if lab is nokeys_pol]
@@ -195,6 +715,10 @@ def rule_duality(ctx: Ctx) -> None:
                                           for s in raises) and cfg_handler_always_raises(ctx, fi, h)
                 ctx.check(ok, "drop-on-failure", fi, h, f"{name}: AEAD failure re-raised as CryptoException",
                           f"{name} swallows an authentication failure of the AEAD layer")
+
+
+def ancestors_include(node: ast.AST, anc: ast.AST) -> bool:
+    return any(a is anc for a in ancestors(node))
 
 
 def cfg_handler_always_raises(ctx: Ctx, fi: FuncInfo, h: ast.ExceptHandler) -> bool:
@@ -236,31 +760,28 @@ def rule_plaintext(ctx: Ctx) -> None:
                 ctx.check(ok, "plaintext-whitelist", fi or m.relpath, st, "plaintext flag set only from msg_id in NO_CRYPTO_PACKETS",
                           "the plaintext flag of an outgoing cell is set by something other than membership in NO_CRYPTO_PACKETS")
     ctx.floor("plaintext-whitelist.setters", n, 2)
-    for m, fi, c in repo.callers_of_name("CellPayload"):
+    for m, fi, c in _callers(ctx, "CellPayload"):
         if fi is None:
             continue
         p = arg(c, 2, "plaintext")
         ctx.check(p is None, "plaintext-whitelist", fi, c, "CellPayload constructed without a plaintext argument",
                   "a cell is constructed with an explicit plaintext flag")
-    # drop rule on the receive side
+    # drop rule on the receive side: every path to the delivery establishes `not cell.plaintext` or `type in NO_CRYPTO_PACKETS`
+    # (whatever the spelling of the guard: drop-guard with early return, inverted if/else, de Morgan, guard in a helper)
+    wl = _MustPass(ctx, good_edge=lambda fi, env, cfg, n, lab: _not_plaintext_edge(ctx, fi, env, n, lab) or _whitelisted_edge(ctx, fi, env, n, lab))
     for clsname, meth, rel, deliver in (("PythonCryptoEndpoint", "process_cell", CR, "self.tunnel_community.on_packet"),
                                         ("TunnelCommunity", "on_cell", TC, "self.on_packet_from_circuit")):
         fi = repo.method(clsname, meth, rel)
-        cfg = ctx.cfg(fi)
         sites = ctx.anchor(calls(fi, deliver), f"{deliver} in {meth}")
         for s in sites:
-            bad = _path_with(cfg, s, [("cell.plaintext", True), ("cell.message[0] not in NO_CRYPTO_PACKETS", True)])
-            has_both = _has_cond(cfg, "cell.plaintext") and _has_cond(cfg, "cell.message[0] not in NO_CRYPTO_PACKETS")
-            ctx.check(has_both and not bad, "plaintext-whitelist", fi, s,
+            ctx.check(wl.holds_at(fi, s), "plaintext-whitelist", fi, s,
                       f"{meth}: no path delivers a plaintext cell whose type is not create/created",
                       f"{meth} can deliver a cell that arrived unencrypted although its message type requires encryption")
     rc = repo.method("PythonCryptoEndpoint", "relay_cell", CR)
-    cfg = ctx.cfg(rc)
+    npt = _MustPass(ctx, good_edge=lambda fi, env, cfg, n, lab: _not_plaintext_edge(ctx, fi, env, n, lab))
     for s in ctx.anchor(calls(rc, "self.endpoint.send"), "endpoint.send in relay_cell"):
-        facts = facts_at(cfg, s)
-        ok = any(f.op == "truthy" and not f.pos and chain(f.left) == "cell.plaintext" for f in facts)
-        ctx.check(ok, "plaintext-whitelist", rc, s, "relay_cell forwards only cells without the plaintext flag",
-                  "a relay forwards cells marked plaintext (no layer is added/removed for them)", [str(f) for f in facts])
+        ctx.check(npt.holds_at(rc, s), "plaintext-whitelist", rc, s, "relay_cell forwards only cells without the plaintext flag",
+                  "a relay forwards cells marked plaintext (no layer is added/removed for them)", [str(f) for f in facts_at(ctx.cfg(rc), s)])
 
 
 def _has_cond(cfg, text: str) -> bool:
@@ -312,19 +833,92 @@ def rule_crypto_before_send(ctx: Ctx) -> None:
                   "outgoing_crypto returns the cell untouched when no circuit/exit/relay entry exists: send_cell then puts the payload on the wire in clear")
     rc = repo.method("PythonCryptoEndpoint", "relay_cell", CR)
     cfg = ctx.cfg(rc)
-    crypto_nodes = [n for c in calls(rc, ["self.encrypt_cell", "self.decrypt_cell"]) for n in cfg.nodes_for(c)]
-    # infeasible both-false path of the FORWARD/BACKWARD dispatch is cut (domain checked in rule_duality)
-    dir_conds = [n for n in cfg.nodes if n.kind == "cond" and isinstance(n.ast, ast.Compare) and norm(n.ast) in ("direction == BACKWARD", "next_relay.direction == BACKWARD")]
+    # every path to endpoint.send completes an encrypt/decrypt step (directly or inside a helper whose result guards the send);
+    # the infeasible neither-FORWARD-nor-BACKWARD path of the direction dispatch is cut (domain checked in rule_duality)
+    step = _MustPass(ctx, good_node=lambda fi, env, g, n: _is_crypto_node(ctx, fi, env, g, n),
+                     infeasible=lambda fi, env, g, n, lab: _third_direction_edge(ctx, fi, env, g, n, lab))
     for s in calls(rc, "self.endpoint.send"):
-        for sn in cfg.nodes_for(s):
-            r = cfg.reach(cut_out_normal=crypto_nodes, cut_edge=lambda u, v, lab: u in dir_conds and lab is False)
-            ctx.check(sn not in r, "crypto-before-send", rc, s, "relay_cell: every path to endpoint.send completes an encrypt/decrypt step",
-                      "a relay can forward a cell without adding or removing its layer")
-    # except CryptoException: return
-    for tr in [t for t in walk_no_nested(rc.node) if isinstance(t, ast.Try)]:
-        hs = [h for h in tr.handlers if chain(h.type) == "CryptoException"]
-        ok = bool(hs) and any(isinstance(s, ast.Return) for s in hs[0].body)
-        ctx.check(ok, "drop-on-failure", rc, tr, "relay_cell drops the cell on CryptoException", "relay_cell forwards a cell whose crypto step failed")
+        ctx.check(step.holds_at(rc, s), "crypto-before-send", rc, s, "relay_cell: every path to endpoint.send completes an encrypt/decrypt step",
+                  "a relay can forward a cell without adding or removing its layer")
+    # a cell whose crypto step failed is dropped: no path from the failure of a step (exception caught or reported by the helper's
+    # result) leads to endpoint.send
+    starts = _failure_starts(ctx, rc, None, 2)
+    ctx.anchor(starts, "exceptional exit of a crypto step in relay_cell")
+    after_failure = _flag_reach(ctx, rc, starts)
+    for s in calls(rc, "self.endpoint.send"):
+        ok = not any(n in after_failure for n in cfg.nodes_for(s))
+        ctx.check(ok, "drop-on-failure", rc, s, "relay_cell drops the cell on CryptoException", "relay_cell forwards a cell whose crypto step failed")
+
+
+def _third_direction_edge(ctx: Ctx, fi: FuncInfo, env, cfg, n, lab) -> bool:
+    """Edge `X != D` of a test of a relay direction against FORWARD/BACKWARD taken where `X != other constant` already holds."""
+    f = fact_of(n.ast, lab)
+    if f.op != "eq" or f.pos:
+        return False
+    l, r = _eq_sides(ctx, fi, f, env)
+    if r not in ("FORWARD", "BACKWARD") or not l.endswith(".direction"):
+        return False
+    other = "BACKWARD" if r == "FORWARD" else "FORWARD"
+    for g in facts_at(cfg, n):
+        if g.op == "eq" and not g.pos and _eq_sides(ctx, fi, g, env) == (l, other):
+            return True
+    return False
+
+
+def _failure_starts(ctx: Ctx, fi: FuncInfo, env, depth: int) -> list:
+    """(node, flag state) pairs of fi at which execution continues when an encrypt/decrypt step (here or in a helper) has failed."""
+    cfg = ctx.cfg(fi)
+    base = _flag_reach(ctx, fi)
+    starts = []
+
+    def leave(n, pred) -> None:
+        for v, lab in n.succ:
+            if pred(lab):
+                starts.extend((v, st) for st in base.get(n, ()))
+
+    for c in calls(fi):
+        if chain(c.func) in CRYPTO_OPS:
+            for n in cfg.nodes_for(c):
+                leave(n, lambda lab: lab == "exc")
+            continue
+        t = _helper(ctx, fi, c)
+        if t is None or depth <= 0 or t is fi:
+            continue
+        try:
+            outcomes = _failure_outcomes(ctx, t, _bind(ctx, fi, c, t, env), depth - 1)
+        except AnalysisError:
+            if calls(t, CRYPTO_OPS):
+                raise
+            continue
+        tested = [m for m in cfg.nodes if m.kind == "cond" and _cond_call(ctx, fi, m) is c]
+        for n in cfg.nodes_for(c):
+            for o in outcomes:
+                if o == "raise":
+                    leave(n, lambda lab: lab == "exc")
+                elif tested:
+                    for m in tested:
+                        leave(m, lambda lab, o=o: lab is o)
+                else:
+                    leave(n, lambda lab: lab != "exc")
+    return starts
+
+
+def _failure_outcomes(ctx: Ctx, fi: FuncInfo, env, depth: int) -> set:
+    """How helper fi can end after one of its crypto steps failed: 'raise', True / False (truthiness of the result)."""
+    cfg = ctx.cfg(fi)
+    starts = _failure_starts(ctx, fi, env, depth)
+    if not starts:
+        return set()
+    if any(isinstance(t, ast.Try) and t.finalbody for t in walk_no_nested(fi.node)):
+        raise AnalysisError(f"undecided: helper {fi.qualname} returns through a finally block")
+    r = _flag_reach(ctx, fi, starts)
+    out = set()
+    if cfg.raise_exit in r:
+        out.add("raise")
+    for n in r:
+        if any(v is cfg.exit and lab != "exc" for v, lab in n.succ):
+            out |= _exit_truth(ctx, fi, n, r)
+    return out
 
 
 def _returns_none_on_crypto_exception(ctx: Ctx, fi: FuncInfo, rule: str) -> None:
@@ -402,18 +996,67 @@ def rule_e2e_delivery(ctx: Ctx) -> None:
               "other circuit data is handed to on_raw_data(circuit, origin, data) unchanged", "raw circuit data is not delivered unchanged")
 
 
+def _absent_from_circuits_edge(ctx: Ctx, fi: FuncInfo, env, n, lab, key: str) -> bool:
+    """The edge establishes that `key` is not the id of an own circuit: `key not in self.circuits`, `not self.circuits.get(key)`."""
+    f = fact_of(n.ast, lab)
+    if f.op == "in" and not f.pos:
+        r = _xchain(ctx, fi, f.right, env)
+        return r in ("self.circuits", "self.circuits.keys()") and norm(_expand(ctx, fi, f.left, env)) == key
+    if (f.op == "truthy" and not f.pos) or (f.op == "is" and f.pos and isinstance(f.right, ast.Constant) and f.right.value is None):
+        c = f.left
+        if isinstance(c, ast.Name) and _bindings(fi, c.id) == 1:
+            c = resolve(fi, c)
+        return isinstance(c, ast.Call) and chain(c.func) == "self.circuits.get" and bool(c.args) \
+            and norm(_expand(ctx, fi, c.args[0], env)) == key
+    return False
+
+
+def rule_key_selection(ctx: Ctx) -> None:
+    """
+    incoming_crypto / outgoing_crypto pick the key set of a cell by looking its circuit id up in the routing tables, exit sockets
+    before own circuits.  The id of an own circuit must therefore never also become the id of an exit socket: whoever gets a
+    `create` accepted under that id (e.g. the first hop, which knows the id) negotiates fresh exit keys, and cells authenticated
+    with those keys alone are then decrypted, accepted and delivered as data of the victim circuit, while the circuit's genuine
+    return traffic no longer decrypts.  Necessary condition: every installation of an exit socket is dominated by the fact that
+    the id is not in self.circuits.
+    """
+    repo = ctx.repo
+    n = 0
+    for m in repo.modules.values():
+        if not m.relpath.startswith("ipv8/messaging/anonymization/"):
+            continue
+        for node in ast.walk(m.tree):
+            if not (isinstance(node, ast.Subscript) and isinstance(node.ctx, ast.Store) and (chain(node.value) or "").endswith("exit_sockets")):
+                continue
+            fi = repo.function_of(node)
+            if fi is None:
+                continue
+            n += 1
+            key = norm(_expand(ctx, fi, node.slice, at=node))
+            subj = names_in(_expand(ctx, fi, node.slice, at=node)) | names_in(node.slice)
+            guard = _MustPass(ctx, subject=subj,
+                              good_edge=lambda f, env, cfg, cn, lab, key=key: _absent_from_circuits_edge(ctx, f, env, cn, lab, key))
+            st = enclosing_stmt(node)
+            ctx.check(guard.holds_at(fi, st), "key-selection", fi, st,
+                      f"{fi.qualname}: exit socket installed only under an id that is not the id of an own circuit",
+                      f"{fi.qualname} installs an exit socket for circuit id `{norm(node.slice)}` without having established that the id is not in "
+                      "self.circuits: incoming_crypto prefers the exit-socket entry, so cells authenticated only with the new exit keys are "
+                      "accepted and delivered as data of the own circuit with that id (injection without the circuit's session keys)")
+    ctx.floor("key-selection", n, 1)
+
+
 def rule_emitters(ctx: Ctx) -> None:
     repo = ctx.repo
     allowed_tb = {"PythonCryptoEndpoint.send_cell", "PythonCryptoEndpoint.relay_cell", "PythonCryptoEndpoint.process_cell"}
     n = 0
-    for m, fi, c in repo.callers_of_name("to_bin"):
+    for m, fi, c in _callers(ctx, "to_bin"):
         if fi is None or not fi.module.relpath.startswith("ipv8/messaging/anonymization/"):
             continue
         n += 1
         ctx.check(fi.qualname in allowed_tb, "cell-emitters", fi, c, f"to_bin called in {fi.qualname}",
                   "a wire cell is serialised outside send_cell/relay_cell/process_cell (crypto step bypassed)")
     ctx.floor("cell-emitters", n, 3)
-    for m, fi, c in repo.callers_of_name("send_cell"):
+    for m, fi, c in _callers(ctx, "send_cell"):
         if fi is None:
             continue
         ch = chain(c.func) or ""
@@ -439,6 +1082,7 @@ def run(ctx: Ctx) -> None:
     rule_crypto_before_send(ctx)
     rule_drop_on_failure(ctx)
     rule_e2e_delivery(ctx)
+    rule_key_selection(ctx)
     rule_emitters(ctx)
     ctx.assume("ChaCha20-Poly1305 in ipv8_rust_tunnels.SessionKeys.encrypt_str/decrypt_str: decrypt raises ValueError on any altered byte; ciphertexts under different keys differ (trusted)")
     ctx.assume("a Rust CryptoEndpoint (ipv8_rust_tunnels.Endpoint), when used instead of PythonCryptoEndpoint, is outside the analysed source")
@@ -502,6 +1146,15 @@ WITNESSES = [
     {"name": "unknown circuit cell accepted", "file": CR, "rule": "drop-on-failure",
      "old": "            self.logger.debug(\"Got encrypted cell from unknown circuit %d\", circuit_id)\n            return None",
      "new": "            self.logger.debug(\"Got encrypted cell from unknown circuit %d\", circuit_id)"},
+    {"name": "create accepted under the id of an own circuit", "file": TC, "rule": "key-selection",
+     "old": "        if circuit_id in self.circuits or circuit_id in self.relay_from_to or circuit_id in self.exit_sockets:",
+     "new": "        if circuit_id in self.relay_from_to or circuit_id in self.exit_sockets:"},
+    {"name": "relay: crypto failure reported but ignored", "file": CR, "rule": "drop-on-failure",
+     "old": "        except CryptoException as e:\n            self.logger.warning(str(e))\n            return\n\n        cell.circuit_id = next_relay.circuit_id",
+     "new": "        except CryptoException as e:\n            self.logger.warning(str(e))\n            cell.relay_early = False\n\n        cell.circuit_id = next_relay.circuit_id"},
+    {"name": "layer removed outside the role functions", "file": CR, "rule": "direction-duality",
+     "old": "        if not self.incoming_crypto(cell):\n            return\n",
+     "new": "        if not self.incoming_crypto(cell):\n            return\n        self.decrypt_cell(cell, FORWARD, *self.circuits[circuit_id].hops)\n"},
     {"name": "community serialises cell itself", "file": TC, "rule": "cell-emitters",
      "old": "        return self.crypto_endpoint.send_cell(target_addr, cell)",
      "new": "        if payload.msg_id == 6:\n            self.endpoint.send(target_addr, cell.to_bin(self._prefix))\n            return None\n        return self.crypto_endpoint.send_cell(target_addr, cell)"},
